@@ -24,7 +24,7 @@ theorem errors_bounded (I : ObjIface σ) (cfg : Config) (ops : List Op)
   have := runT_inv I (fun s => s.cfg = cfg ∧ ErrInv s) (fun _ => True)
     (fun s op s' r evs hinv _ h => by
       have h1 := step_err I s s' op r evs h hinv.2
-      have h2 := (step_all I (fun _ => True) s s' op r evs (fun _ _ _ _ _ _ => trivial)
+      have h2 := (step_all I (fun _ => True) s s' op r evs (fun _ _ _ => trivial) (fun _ _ _ _ _ _ => trivial)
         (fun _ _ _ _ _ _ _ _ _ => trivial) (fun _ _ _ _ => trivial) h
         ⟨fun _ _ => trivial, fun _ _ => trivial⟩).2
       exact ⟨by rw [h2]; exact hinv.1, h1⟩)
